@@ -6,6 +6,7 @@ import GramModel.Typing
 import GramModel.Lemmas.RewriteTyping
 import GramModel.Lemmas.RewriteMore
 import GramModel.Lemmas.ResolveRename
+import GramModel.Lemmas.ResolveLayout
 import GramModel.Lemmas.ParenTokens
 
 /-!
@@ -1544,3 +1545,39 @@ example : (∀ x y : Name, rn19RhoSwap x = rn19RhoSwap y → x = y) ∧
     rn19RhoSwap placeholder = placeholder := ⟨rn19RhoSwap_inj, by decide⟩
 
 end SourceRename
+
+/-! ## Name resolution does not depend on layout
+
+(`Lemmas/ResolveLayout.lean`.)  The resolution step of "adding redundant parentheses": parentheses
+change only source ranges, `group` flags and recorded-error lists of the surface tree. -/
+
+section ResolveLayout
+open PModel
+
+/-- **Layout independence of name resolution.**  Two surface trees that are equal after erasing
+source ranges, `group` flags and recorded-error lists (`RewriteMore.strip`) resolve alike from every
+state: both panic or neither, and the results show the same semantic term (`RTm.erase`, the resolved
+term without ranges: same structure, names, de Bruijn indices, hole ids and shifts), the same final
+context, the same hole counter and the same NUMBER of diagnostics (`RewriteMore.resView`; the ranges
+of the diagnostics are layout).  In particular `collect_definitions` follows the body chain of nested
+lets whatever their `group` flag, and no arm of `resolve_variables` branches on a range, a flag or an
+error list. -/
+def C19_resolve_layout_independent_stmt : Prop :=
+  ∀ (s s' : Src) (depth : Nat) (st : RState), RewriteMore.strip s = RewriteMore.strip s' →
+    (resolve s depth st).map RewriteMore.resView = (resolve s' depth st).map RewriteMore.resView
+theorem C19_resolve_layout_independent : C19_resolve_layout_independent_stmt :=
+  resolve_layout_independent
+
+/-- `x => (y => (x))` with the ranges of that text and `group = true` on the parenthesised nodes -/
+private def rn19ProgXYParen : Src :=
+  .mk ⟨0, 15⟩ false (.lam ⟨⟨0, 1⟩, 1⟩ false .none
+    (.mk ⟨5, 15⟩ true (.lam ⟨⟨6, 7⟩, 2⟩ false .none (.mk ⟨11, 14⟩ true (.var 1) [])) [])) []
+
+-- non-vacuity: the parenthesised program is a different tree with the same `strip`
+example : RewriteMore.strip rn19ProgXYParen = RewriteMore.strip rn19ProgXY ∧
+    rn19ProgXYParen.range ≠ rn19ProgXY.range := ⟨by rfl, by decide⟩
+example : (resolve rn19ProgXYParen 0 ⟨[], [], 0⟩).map RewriteMore.resView =
+    some (.lam 1 false (.hole 0 0) (.lam 2 false (.hole 1 0) (.var 1 1)), [], 2, 0) := by
+  decide +kernel
+
+end ResolveLayout
